@@ -13,9 +13,9 @@ import c04_w3 as W
 
 PROP = "C04"
 LEVEL = "proof"
-GEN_UNITS = []
-COQ_TARGETS = ["Props/C04.vo", "Model/C04Harness.vo", "Model/C04Extra.vo", "Model/Harness.vo"]
-THEOREM_FILES = ["Props/C04.v"]
+GEN_UNITS = ["GenUtils3"]      # Props/C04Gen.v states one mode of the sparse region read over the GENERATED tt_renumberdim
+COQ_TARGETS = ["Props/C04.vo", "Props/C04Gen.vo", "Model/C04Harness.vo", "Model/C04Extra.vo", "Model/Harness.vo"]
+THEOREM_FILES = ["Props/C04.v", "Props/C04Gen.v"]
 COQ_IMPORTS = ("From Coq Require Import List ZArith Bool.\n"
                "From PV Require Import Base.Index Np.Array Model.Sparse Model.Harness Model.C04Model Model.C04Harness Model.C04Extra.\n")
 RULE = ("a case is a HISTORY of 1-12 reads/writes applied to a dense and a sparse tensor from the same start state "
@@ -47,6 +47,9 @@ CORRESPONDENCE_ONLY = [
     "quantify over every stored order)",
     "how a start state is built (C-ordered / non-contiguous data, no-copy, results of computations and reads) and in which memory layout a "
     "right-hand side arrives: the model has no notion of layout; the streams check that none of it is observable",
+    "sptensor.__getitem__(region) as a whole: ONE mode is proved over the generated tt_renumberdim (Props/C04Gen.v, keys whose lists do "
+    "not repeat an index); the subdims filter, the mode loop of tt_renumber and the column selection (kpdims) are tied by the streams only "
+    "(returned sptensor compared raw with sp_region_get in plain histories)",
     "rejection of inadmissible requests (dense linear assignment at or beyond prod(shape), out-of-range (sp)tenmat subscripts)",
     "the mode split of a (sp)tenmat (which tensor entry a matrix entry is): the C04 theorems treat the matrix as a 2-way array; the "
     "streams check that rdims / cdims / tshape are untouched by entry access",
